@@ -31,6 +31,7 @@ func checkC06(c *Ctx) {
 	ruleStartNonBlank(c)
 	ruleHTMLBlockTable(c)
 	rulePrefilter(c)
+	ruleWindowSearch(c)
 	// 3. emphasis: flanking truth table, match predicate (rules 9/10), search-bound cache soundness
 	checkC11(c)
 	// 4. which block may contain which; list/ item agreement; tightness
